@@ -876,7 +876,7 @@ func H_C01_step_add() {
 // H_C01_step_add_deep: H_C01_step_add with the 6-name pool.
 // bounds: k<=3 prefix insertions, 6-name colliding pool, L in 1..2, residues printable ASCII, all three policies
 // outside: k>3, L>2, names outside the pool, comments
-//verif: tier=thorough
+// verif: tier=thorough
 func H_C01_step_add_deep() {
 	c01AlignStep(c01Cfg{true, AMINOACIDS, c01Pool, 0, 3, 1, 2, c01GenPrintable},
 		[]int{c01OpAdd, c01OpAppend, c01OpClear})
@@ -907,7 +907,7 @@ func H_C01_step_names() {
 // H_C01_step_names_deep: H_C01_step_names with up to three rows.
 // bounds: k<=3 prefix insertions, 6-name pool, L=1, residues printable ASCII, TrimNames size 2..5, TrimNamesAuto start id 1 or 9, namemap empty or {a:zz}
 // outside: larger sizes, other identifiers than "" and "_0001"
-//verif: tier=thorough
+// verif: tier=thorough
 func H_C01_step_names_deep() {
 	c01AlignStep(c01Cfg{true, AMINOACIDS, c01Pool, 0, 3, 1, 1, c01GenPrintable},
 		[]int{c01OpAppendId, c01OpTrimNames, c01OpTrimNamesAuto})
@@ -924,7 +924,7 @@ func H_C01_step_regexp() {
 // H_C01_step_regexp_deep: H_C01_step_regexp with up to three rows.
 // bounds: k<=3 prefix insertions, 6-name pool, L=1, residues printable ASCII
 // outside: other regular expressions; names with adjacent special characters
-//verif: tier=thorough
+// verif: tier=thorough
 func H_C01_step_regexp_deep() {
 	c01AlignStep(c01Cfg{true, AMINOACIDS, c01Pool, 0, 3, 1, 1, c01GenPrintable},
 		[]int{c01OpRenameRegexp, c01OpCleanNames})
@@ -941,7 +941,7 @@ func H_C01_step_order() {
 // H_C01_step_order_deep: H_C01_step_order with the 6-name pool (names with blanks and punctuation in the sort).
 // bounds: k<=3 prefix insertions, 6-name pool, L in 1..2, residues printable ASCII; every outcome of math/rand
 // outside: k>3
-//verif: tier=thorough
+// verif: tier=thorough
 func H_C01_step_order_deep() {
 	c01AlignStep(c01Cfg{true, AMINOACIDS, c01Pool, 0, 3, 1, 2, c01GenPrintable},
 		[]int{c01OpSort, c01OpShuffle, c01OpSample, c01OpClone})
@@ -957,7 +957,7 @@ func H_C01_step_dedup() {
 // H_C01_step_dedup_deep: H_C01_step_dedup with up to three rows.
 // bounds: k<=3 prefix insertions, small pool, L in 1..2, residues printable ASCII
 // outside: k>3, L>2
-//verif: tier=thorough
+// verif: tier=thorough
 func H_C01_step_dedup_deep() {
 	c01AlignStep(c01Cfg{true, NUCLEOTIDS, c01Small, 0, 3, 1, 2, c01GenPrintable}, []int{c01OpDedup})
 }
@@ -977,20 +977,20 @@ func H_C01_step_filterlength() {
 	c01AlignStep(c01Cfg{true, NUCLEOTIDS, c01Small, 0, 3, 1, 2, c01GenPrintable}, []int{c01OpFilterLength})
 }
 
-// H_C01_step_cols: prefix, then RemoveGapSites (length bookkeeping) or TrimSequences.
+// H_C01_step_cols: prefix, then RemoveGapSites (length bookkeeping), TrimSequences or Unalign.
 // bounds: k<=2 prefix insertions, names {a,b}, L in 1..3, residues printable ASCII, cutoff in {0, 0.5, 1}, ends or not, trim size in -1..L+1
 // outside: RemoveCharacterSites options other than those of RemoveGapSites (C12)
 func H_C01_step_cols() {
 	c01AlignStep(c01Cfg{true, NUCLEOTIDS, c01Small[:2], 0, 2, 1, 3, c01GenPrintable},
-		[]int{c01OpRemoveGapSites, c01OpTrimSeqs})
+		[]int{c01OpRemoveGapSites, c01OpTrimSeqs, c01OpUnalign})
 }
 
 // H_C01_step_translate: prefix of nucleotide rows, then Translate in phase 0, 1, 2 or -1 (three
-// frames; with 6 columns the three frames hold 2, 1 and 1 complete codons), or Unalign.
+// frames; with 6 columns the three frames hold 2, 1 and 1 complete codons).
 // bounds: k<=2 prefix insertions, names {a,b}, L in 3..6, first residue of every row symbolic in {A,C} and the others 'A', standard genetic code
 // outside: amino acid content (C05), other genetic codes, other nucleotides, L>6
 func H_C01_step_translate() {
-	c01AlignStep(c01Cfg{true, NUCLEOTIDS, c01Small[:2], 0, 2, 3, 6, c01GenAC}, []int{c01OpTranslate, c01OpUnalign})
+	c01AlignStep(c01Cfg{true, NUCLEOTIDS, c01Small[:2], 0, 2, 3, 6, c01GenAC}, []int{c01OpTranslate})
 }
 
 // H_C01_two_steps: prefix, then two operations in a row out of the 21 modelled ones other than Translate (rename then
@@ -999,7 +999,7 @@ func H_C01_step_translate() {
 // (unspecified state after an error, duplicate names created by the caller).
 // bounds: k<=2 prefix insertions, names {a,b}, L in 1..2, residues printable ASCII, lean argument variants (first variants of every operation, see c01Pick)
 // outside: histories longer than 2, k>2, Translate as a successful step (needs nucleotides: H_C01_twostep_translate)
-//verif: tier=thorough
+// verif: tier=thorough
 func H_C01_two_steps() {
 	c01AlignTwoSteps(c01Cfg{true, NUCLEOTIDS, c01Small[:2], 0, 2, 1, 2, c01GenPrintable}, c01OpsButTranslate(), c01OpsButTranslate())
 }
@@ -1040,7 +1040,7 @@ func H_C01_rename_then() {
 // H_C01_twostep_translate: nucleotide prefix, Translate, then a second operation.
 // bounds: k<=2 prefix insertions, names {a,b}, L in {3,6}, residues as in H_C01_step_translate, phase -1 or 0
 // outside: see H_C01_step_translate
-//verif: tier=thorough
+// verif: tier=thorough
 func H_C01_twostep_translate() {
 	c01Lean = true
 	cfg := c01Cfg{true, NUCLEOTIDS, c01Small[:2], 0, 2, 3, 3, c01GenAC}
@@ -1061,7 +1061,7 @@ func H_C01_twostep_translate() {
 // RemoveGapSeqs, TrimSequences, Clear, FilterLength, then Translate.
 // bounds: k<=2 prefix insertions, names {a,b}, L in {3,6}, residues as in H_C01_step_translate, phase -1 or 0
 // outside: see H_C01_step_translate
-//verif: tier=thorough
+// verif: tier=thorough
 func H_C01_twostep_then_translate() {
 	c01Lean = true
 	cfg := c01Cfg{true, NUCLEOTIDS, c01Small[:2], 0, 2, 3, 3, c01GenAC}
@@ -1090,7 +1090,7 @@ func H_C01_wronglen_rejected() { c01WrongLen(2) }
 // H_C01_wronglen_rejected_deep: the same with up to three prefix insertions.
 // bounds: k in 1..3 prefix insertions, small pool, L in 1..2, wrong length in 0..3, residues printable ASCII, all three policies
 // outside: k>3, L>2
-//verif: tier=thorough
+// verif: tier=thorough
 func H_C01_wronglen_rejected_deep() { c01WrongLen(3) }
 
 func c01WrongLen(kmax int) {
@@ -1161,17 +1161,17 @@ func H_C01_seqbag_step() {
 
 // H_C01_seqbag_step_unalign: unaligned container (rows may hold '-'), then Unalign.
 // bounds: k<=2 prefix insertions, names {a,b}, every row length in 0..2, residues printable ASCII, all three policies
-// outside: rows longer than 2 (H_C01_seqbag_step_deep: 3)
+// outside: rows longer than 2
 func H_C01_seqbag_step_unalign() {
 	c01BagStep(c01Cfg{false, NUCLEOTIDS, c01Small[:2], 0, 2, 0, 2, c01GenPrintable}, []int{c01OpUnalign})
 }
 
-// H_C01_seqbag_step_deep: the same with up to three rows.
-// bounds: k<=3 prefix insertions, small pool, every row length in 0..3, residues printable ASCII, FilterLength bounds in -2..4, all three policies
-// outside: rows longer than 3, bounds beyond 4
-//verif: tier=thorough
+// H_C01_seqbag_step_deep: FilterLength, Unalign, CloneSeqBag on up to three rows.
+// bounds: k<=3 prefix insertions, names {a,b}, every row length in 0..2, residues printable ASCII, FilterLength bounds in -2..4, all three policies
+// outside: rows longer than 2, bounds beyond 4
+// verif: tier=thorough
 func H_C01_seqbag_step_deep() {
-	c01BagStep(c01Cfg{false, NUCLEOTIDS, c01Small, 0, 3, 0, 3, c01GenPrintable},
+	c01BagStep(c01Cfg{false, NUCLEOTIDS, c01Small[:2], 0, 3, 0, 2, c01GenPrintable},
 		[]int{c01OpFilterLength, c01OpUnalign, c01OpClone})
 }
 
